@@ -90,7 +90,7 @@ package level
 //@   ensures err == nil ==> cnt >= 0 && len(b.data) == cnt && n == k + 8*cnt && Spos(s) == p0 + n      [@count @consume]
 //@   ensures err == nil ==> all(j, 0, cnt, b.data[j] == be64(Sinrow(s), p0 + k + 8*j))                 [@value @filled]
 //@   ensures Sfail(s) ==> err != nil                                                 [@errprop]
-//@   ensures !Sfail(s) && (k > 5 || cnt < 0) ==> err != nil                          [@value]
+//@   ensures !Sfail(s) && (k > 5 || cnt < 0) ==> err != nil                          [@value @reject]
 //@   modifies b.data, b.data[0:cap(b.data)], stream(r)                               [@frame]
 
 //@ func (*BitStorage).WriteTo(b; w) (n, err)
